@@ -34,6 +34,8 @@ CATALOGUE = {
     "restart_forgets_phase": [("a", 1, 2)],
     "restart_forgets_high_vote": [("b", 1, 2), ("a", 1, 2)],
     "justification_prefers_timeout": [("c", 0, 2)],
+    # 4th element: the invariants to violate (default: all of STD_INVS, shortest counterexample of any of them)
+    "tqc_stale_votes": [("b", 0, 2, "Agreement")],
 }
 
 
@@ -102,8 +104,9 @@ def regen():
     found = 0
     for weaken, tries in CATALOGUE.items():
         got = None
-        for (variant, maxcrash, maxview) in tries:
-            got = generate(weaken, variant, maxcrash, maxview)
+        for t in tries:
+            (variant, maxcrash, maxview) = t[:3]
+            got = generate(weaken, variant, maxcrash, maxview, cap=400 if len(t) > 3 else 180, invs=t[3] if len(t) > 3 else None)
             if got:
                 break
         path = os.path.join(SCEN_DIR, f"attack_{weaken}.json")
